@@ -311,3 +311,33 @@ pub fn c13_poplar1_fieldvec_inner() {
     kani::cover!(true);
     core::mem::forget((a, b, ab, ba, leaf, a2, short));
 }
+
+//@ harness: c13_merge_len3_f64
+//@ prop: C13
+//@ tier: thorough
+//@ cost: 300
+//@ timeout: 2400
+//@ funcs: AggregateShare<Field64>::merge
+//@ bounds: vectors of length 3; every element value (9 symbolic representatives)
+//@ asserts: (a+b)+c = a+(b+c) = (c+a)+b element-wise
+//@ stubs: alloc::fmt::format
+#[kani::proof]
+#[kani::unwind(5)]
+#[kani::stub(alloc::fmt::format, fmt_stub)]
+pub fn c13_merge_len3_f64() {
+    let mk = || AggregateShare::from(vec![any_elem!(Field64, u64), any_elem!(Field64, u64), any_elem!(Field64, u64)]);
+    let (a, b, c) = (mk(), mk(), mk());
+    let mut ab_c = a.clone();
+    ab_c.merge(&b).unwrap();
+    ab_c.merge(&c).unwrap();
+    let mut bc = b.clone();
+    bc.merge(&c).unwrap();
+    let mut a_bc = a.clone();
+    a_bc.merge(&bc).unwrap();
+    let mut ca_b = c.clone();
+    ca_b.merge(&a).unwrap();
+    ca_b.merge(&b).unwrap();
+    assert!(ab_c == a_bc && a_bc == ca_b);
+    kani::cover!(true);
+    core::mem::forget((a, b, c, ab_c, bc, a_bc, ca_b));
+}
